@@ -873,6 +873,16 @@ fn float_builder_case<F: Fl, M: Chain<F>>(sub: &mut Sub, cfg: &Config, idx: u64)
             row[n - 1] *= e;
         }
     }
+    // structured receivers: a line of the receiver that coincides with a line of the identity is what a
+    // "this matrix is affine / has no translation" shortcut looks at -- and the last row and the last
+    // column are the same line only for one of the two layouts
+    match rng.below(8) {
+        0 => for i in 0..n { g[i][n - 1] = if i == n - 1 { 1.0 } else { 0.0 }; },          // last column = e_n (no translation), projective last row
+        1 => for j in 0..n { g[n - 1][j] = if j == n - 1 { 1.0 } else { 0.0 }; },          // last row = e_n (affine), general translation
+        2 => { for i in 0..n { g[i][n - 1] = if i == n - 1 { 1.0 } else { 0.0 }; } for j in 0..n { g[n - 1][j] = if j == n - 1 { 1.0 } else { 0.0 }; } } // linear
+        3 => { g = (0..n).map(|i| (0..n).map(|j| (i == j) as i64 as f64).collect()).collect(); let (i, j) = (rng.usize_below(n), rng.usize_below(n)); g[i][j] = rng.range_i64(-32, 32) as f64 / 8.0; } // identity but one entry
+        _ => {}
+    }
     let ty = format!("{}<{}>", M::NAME, F::TY);
     let api = api_name(M::SIZE, k, if ip { Form::InPlace } else { Form::Returning });
     let mut h = H64::new();
@@ -1233,6 +1243,96 @@ fn transform_case<T: Elem>(sub: &mut Sub, cfg: &Config, idx: u64) {
     layout!(Cols4, 2);
 }
 
+/// `Mat4::from(Transform)` on f32 / f64 with orientations a *float* can hold: unit quaternions
+/// (n sin(a/2), cos(a/2)) built in f64 and rounded, the angle also tiny (1e-2 .. 1e-9: w rounds to
+/// exactly 1 while x, y, z do not vanish), near a half turn and near a full turn; positions and
+/// points up to 1e4 away so that a small rotation still moves the point by many ulps.
+fn transform_float<F: Fl>(sub: &mut Sub, cfg: &Config, idx: u64) {
+    use std::f64::consts::PI;
+    let name = format!("transform_float/{}", F::TY);
+    let mut rng = Rng::for_case(&name, cfg.case_seed(), idx);
+    let a = match rng.below(6) {
+        0 | 1 => 10f64.powf(rng.f64_in(-9.0, -2.0)) * if rng.bool() { 1.0 } else { -1.0 },
+        2 => PI + rng.f64_in(-1e-3, 1e-3),
+        3 => 2.0 * PI - 10f64.powf(rng.f64_in(-9.0, -2.0)),
+        _ => rng.f64_in(-2.0 * PI, 2.0 * PI),
+    };
+    let nrm = loop {
+        let v = [rng.f64_in(-1.0, 1.0), rng.f64_in(-1.0, 1.0), rng.f64_in(-1.0, 1.0)];
+        let l = (v[0] * v[0] + v[1] * v[1] + v[2] * v[2]).sqrt();
+        if l > 0.1 && l <= 1.0 {
+            break [v[0] / l, v[1] / l, v[2] / l];
+        }
+    };
+    let (sh, ch) = (a / 2.0).sin_cos();
+    let q = [F::of(nrm[0] * sh), F::of(nrm[1] * sh), F::of(nrm[2] * sh), F::of(ch)];
+    let q64 = [q[0].f(), q[1].f(), q[2].f(), q[3].f()];
+    let far = *rng.pick(&[1.0, 1.0, 100.0, 1e4]);
+    let pos: Vec<f64> = (0..3).map(|_| F::of(rng.f64_in(-4.0, 4.0) * far).f()).collect();
+    let scale: Vec<f64> = if idx % 3 == 0 { let s = F::of(rng.f64_in(0.25, 4.0)).f(); vec![s, s, s] } else { (0..3).map(|_| F::of(rng.f64_in(0.25, 4.0) * if rng.bool() { 1.0 } else { -1.0 }).f()).collect() };
+    let p: Vec<f64> = (0..3).map(|_| F::of(rng.f64_in(-4.0, 4.0) * far).f()).collect();
+    // textbook rotation matrix of the (rounded) quaternion, in f64
+    let (x, y, z, w) = (q64[0], q64[1], q64[2], q64[3]);
+    let r = [
+        [1.0 - 2.0 * (y * y + z * z), 2.0 * (x * y - z * w), 2.0 * (x * z + y * w)],
+        [2.0 * (x * y + z * w), 1.0 - 2.0 * (x * x + z * z), 2.0 * (y * z - x * w)],
+        [2.0 * (x * z - y * w), 2.0 * (y * z + x * w), 1.0 - 2.0 * (x * x + y * y)],
+    ];
+    let mut h = H64::new();
+    h.s(&name);
+    for v in q64.iter().chain(pos.iter()).chain(scale.iter()).chain(p.iter()) {
+        h.f(*v);
+    }
+    let what = if idx % 3 == 0 { "uniform_scale" } else { "non_uniform_scale" };
+    macro_rules! layout {
+        ($M:ident, $salt:expr) => {{
+            let ty = format!("{}<{}>", <$M<F> as MatX<F>>::NAME, F::TY);
+            let api = "Mat4::from(Transform)";
+            sub.saw(api);
+            let xf = Transform {
+                position: v3([F::of(pos[0]), F::of(pos[1]), F::of(pos[2])]),
+                orientation: Quaternion { x: q[0], y: q[1], z: q[2], w: q[3] },
+                scale: v3([F::of(scale[0]), F::of(scale[1]), F::of(scale[2])]),
+            };
+            let ctx = format!("Transform {{ position: {:?}, orientation (x,y,z,w): {:?} (angle {:e} about {:?}), scale: {:?} }}", pos, q64, a, nrm, scale);
+            match guarded(|| <$M<F>>::from(xf).to_rows()) {
+                Err(e) => {
+                    let v = violation(PROP, sub, api, &ty, "panic", what, format!("{}: {}", ctx, e), cfg.case_seed(), idx);
+                    sub.violated(v);
+                }
+                Ok(rows) => {
+                    let mut bad = None;
+                    for (pt, wv) in [(&p, 1.0f64), (&p, 0.0f64)] {
+                        for i in 0..3 {
+                            let (mut got, mut exp, mut mag) = (0.0f64, pos[i] * wv, (pos[i] * wv).abs());
+                            for j in 0..3 {
+                                got += rows[i][j].f() * pt[j];
+                                exp += r[i][j] * scale[j] * pt[j];
+                                mag += (scale[j] * pt[j]).abs();
+                            }
+                            got += rows[i][3].f() * wv;
+                            // the matrix entries carry a few eps of absolute error each (times |scale . p|),
+                            // the harness's own f64 product nothing visible at this tolerance
+                            let tol = 64.0 * F::EPS * mag + 1e-300;
+                            if !((got - exp).abs() <= tol) {
+                                bad = Some(format!("{} -> matrix {:?}; applied to {:?} (w = {}) component {} is {:?}, position*w + orientation*(scale . p) gives {:?} (tolerance {:e})", ctx, rows, pt, wv, i, got, exp, tol));
+                                break;
+                            }
+                        }
+                        if bad.is_some() { break; }
+                    }
+                    match bad {
+                        Some(msg) => { let v = violation(PROP, sub, api, &ty, "wrong_value", what, msg, cfg.case_seed(), idx); sub.violated(v); }
+                        None => { sub.sample(|| format!("{} [{}] {}: {}", api, ty, what, ctx)); sub.held(h.get() ^ $salt, a != 0.0); }
+                    }
+                }
+            }
+        }};
+    }
+    layout!(Rows4, 1);
+    layout!(Cols4, 2);
+}
+
 fn transform_default<T: Elem>(sub: &mut Sub, cfg: &Config) {
     T::reset();
     let ty = format!("Transform<{0},{0},{0}>", T::TY);
@@ -1498,6 +1598,19 @@ fn main() {
             transform_default::<Q>(&mut s, &cfg);
             transform_default::<Fp>(&mut s, &cfg);
         }
+        rep.push(s);
+    }
+    {
+        let proto = Sub::new(
+            "transform_float",
+            "Mat4::from(Transform) on f32 and f64, both layouts: orientation = (n sin(a/2), cos(a/2)) built in f64 and rounded, a tiny (1e-9..1e-2, either sign: w rounds to exactly 1 while x,y,z do not vanish), within 1e-3 of a half turn, just below a full turn, or uniform in (-2pi,2pi); position and test point up to 4e4 away; scale uniform or per-axis with either sign; the matrix applied by the harness (in f64) to the point (w = 1) and to the direction (w = 0) against position*w + R(q)(scale . p) with R(q) the textbook matrix of the rounded quaternion, tolerance 64 eps (|position| + sum |scale . p|)",
+        )
+        .with_floor(ntr / 4)
+        .require(&["Mat4::from(Transform)"]);
+        let s = run_cases(&cfg, proto, ntr / 2, |s, i| {
+            transform_float::<f32>(s, &cfg, i);
+            transform_float::<f64>(s, &cfg, i);
+        });
         rep.push(s);
     }
     std::process::exit(rep.finish());
